@@ -242,7 +242,9 @@ class CircuitSerializer(serializer.Serializer):
     ) -> None:
         msg.scheduling_strategy = v2.program_pb2.Circuit.MOMENT_BY_MOMENT
         for moment in circuit:
-            if (moment_index := raw_constants.get(moment, None)) is not None:
+            # Moment equality ignores moment tags, so the tags are part of the key.
+            moment_key = (moment, moment.tags)
+            if (moment_index := raw_constants.get(moment_key, None)) is not None:
                 # Moment is already in the constants table
                 msg.moment_indices.append(moment_index)
                 continue
@@ -295,7 +297,7 @@ class CircuitSerializer(serializer.Serializer):
             # Add this moment to the constants table
             constants.append(v2.program_pb2.Constant(moment_value=moment_proto))
             moment_index = len(constants) - 1
-            raw_constants[moment] = moment_index
+            raw_constants[moment_key] = moment_index
             msg.moment_indices.append(moment_index)
 
         # Serialize any circuit tags
